@@ -3,6 +3,7 @@ package main
 // Per-function summaries produced by the W interpreter.
 
 import (
+	"fmt"
 	"go/ast"
 	"go/token"
 	"go/types"
@@ -436,6 +437,9 @@ func (in *Interp) unmarshalCall(st *State, f *types.Func, recv Val, args []Val, 
 	if mv, ok := recv.(MaybeV); ok {
 		path, rt = mv.V.Path, mv.V.Type
 	}
+	if path == "?" && recv != nil {
+		in.note(call.Pos(), "decode on unresolved receiver %T %s", recv, recv.valString())
+	}
 	typ := ""
 	sig := f.Type().(*types.Signature)
 	recvT := sig.Recv().Type()
@@ -570,18 +574,35 @@ func (w *World) Ensures(f *types.Func) []Fact {
 				}
 			}
 		}
+		// local objects the receiver points to, by their canonical path
+		objCanon := map[string]string{}
+		{
+			fields := map[string]Val{}
+			canonFields(r.St, "$", "$", fields, 0)
+			for p, v := range fields {
+				if ov, ok := v.(ObjV); ok && isLocalObj(ov.Path) && !strings.Contains(p, "copyof:") {
+					if old, dup := objCanon[ov.Path]; !dup || p < old {
+						objCanon[ov.Path] = p
+					}
+				}
+			}
+		}
 		var cand []Fact
 		for _, ft := range r.St.facts {
 			if ft.Cond != "" || badHyps[ft.Src] {
 				continue
 			}
 			rw := func(t *Term) *Term {
-				return t.Map(func(a *Atom) *Term {
+				t = t.Map(func(a *Atom) *Term {
 					if p, ok := inv[a.Key()]; ok {
 						return ValOf(p)
 					}
 					return nil
 				})
+				for lp, cp := range objCanon {
+					t = t.Reroot2(lp, cp)
+				}
+				return t
 			}
 			nf := Fact{L: rw(ft.L), R: rw(ft.R), Src: ft.Src}
 			clean := func(t *Term) bool {
@@ -597,7 +618,8 @@ func (w *World) Ensures(f *types.Func) []Fact {
 					return false
 				})
 			}
-			if clean(nf.L) && clean(nf.R) && (nf.L.HasAtom(func(a *Atom) bool { return a.Kind == "len" && a.Path == "P" }) || nf.R.HasAtom(func(a *Atom) bool { return a.Kind == "len" && a.Path == "P" })) {
+			inherited := strings.HasPrefix(ft.Src, "success of ") || strings.Contains(ft.Src, "at every successful return")
+			if clean(nf.L) && clean(nf.R) && (inherited || nf.L.HasAtom(func(a *Atom) bool { return a.Kind == "len" && a.Path == "P" }) || nf.R.HasAtom(func(a *Atom) bool { return a.Kind == "len" && a.Path == "P" })) {
 				cand = append(cand, nf)
 			}
 		}
@@ -615,6 +637,40 @@ func (w *World) Ensures(f *types.Func) []Fact {
 			}
 		}
 		out = keep
+	}
+	// integer fields (also of objects the receiver points to) that hold the same
+	// constant at every successful return
+	var consts map[string]int64
+	for _, r := range fs.Rets {
+		if r.IsErr || r.St == nil {
+			continue
+		}
+		fields := map[string]Val{}
+		canonFields(r.St, "$", "$", fields, 0)
+		cur := map[string]int64{}
+		for p, v := range fields {
+			if iv, ok := v.(IntV); ok && iv.T.IsConst() && !strings.Contains(p, "copyof:") {
+				cur[p] = iv.T.C
+			}
+		}
+		if consts == nil {
+			consts = cur
+			continue
+		}
+		for p, v := range consts {
+			if cv, ok := cur[p]; !ok || cv != v {
+				delete(consts, p)
+			}
+		}
+	}
+	var ps []string
+	for p := range consts {
+		ps = append(ps, p)
+	}
+	sort.Strings(ps)
+	for _, p := range ps {
+		src := fmt.Sprintf("%s = %d at every successful return", p, consts[p])
+		out = append(out, Fact{L: ValOf(p), R: Const(consts[p]), Src: src}, Fact{L: Const(consts[p]), R: ValOf(p), Src: src})
 	}
 	c.ensures[f] = out
 	return out
